@@ -19,6 +19,7 @@ pub mod scope;
 #[macro_use]
 pub mod value;
 
+use lalrpop_util::ParseError;
 use snafu::ResultExt;
 
 #[allow(clippy::wildcard_imports)]
@@ -39,6 +40,8 @@ use self::value::Str;
 use self::value::Value;
 
 use crate::lexer::Lexer;
+use crate::lexer::LexError;
+use crate::lexer::Token;
 use crate::parser::ExprParser;
 
 macro_rules! match_eval_expr {
@@ -1564,6 +1567,41 @@ fn eval_call(
     Ok(v)
 }
 
+// `render_slot_parse_error` describes why an interpolation slot couldn't be
+// parsed, without exposing the parser's internal representation of the error.
+fn render_slot_parse_error(
+    error: &ParseError<(usize, usize), Token, LexError>,
+)
+    -> String
+{
+    match error {
+        ParseError::InvalidToken{..} =>
+            "invalid token".to_string(),
+        ParseError::UnrecognizedEof{..} =>
+            "unexpected end of slot".to_string(),
+        ParseError::UnrecognizedToken{..} |
+        ParseError::ExtraToken{..} =>
+            "unexpected token".to_string(),
+        ParseError::User{error} =>
+            match error {
+                LexError::Unexpected(_, c) =>
+                    format!("unexpected '{c}'"),
+                LexError::IntOverflow(_, raw_int) =>
+                    format!("'{raw_int}' is too high for an int"),
+                LexError::InvalidEscapeChar(_, c) =>
+                    format!("'{c}' is not a valid escape character"),
+                LexError::InvalidHexChar(_, c) =>
+                    format!("'{c}' is not a valid hex character"),
+                LexError::UnescapedDollar(_) =>
+                    "'$' must be escaped".to_string(),
+                LexError::InvalidInterpolationStart(_, c) =>
+                    format!(
+                        "interpolation slots start with '{{', got '{c}'",
+                    ),
+            },
+    }
+}
+
 fn interpolate_string(
     context: &EvaluationContext,
     scopes: &mut ScopeStack,
@@ -1613,7 +1651,7 @@ fn interpolate_string(
                 Ok(v) => v,
                 Err(e) => return new_loc_err(
                     Error::InterpolateStringParseFailed{
-                        source_str: format!("{e:?}"),
+                        source_str: render_slot_parse_error(&e),
                     },
                     slot_col,
                 ),
